@@ -857,6 +857,8 @@ where
         while let Ok(wg) = self.clear_rx.try_recv() {
             wg.done();
         }
+        #[cfg(transparencies_stretto_verif)]
+        crate::verif::sched::point("proc:after_final_drain");
         Ok(())
     }
 
